@@ -78,7 +78,7 @@ def _pyint(I, v):
     return t.as_long()
 
 
-def build():
+def build(control_events=False):
     C = ContractSet("C07", "Mode lifecycle is well-formed and leaves nothing behind")
     C.strings = True
     C.helpers["list_sort"] = list_sort
@@ -219,7 +219,8 @@ def build():
         return I.new_list([VStr(z3.String("%s.ev%d" % (name, i))) for i in range(n)], name)
     MACHINE = ObjS("MachineController", events=ObjS("EventManager"), game=Opt(ObjS("Game")),
                    mode_controller=ObjS("ModeControllerI", start_methods=Init(lambda I, n: I.new_list([], n))),
-                   switch_controller=ObjS("SwitchController"), is_shutting_down=Bool, delay=common.DelayMgr)
+                   switch_controller=ObjS("SwitchController"), is_shutting_down=Bool, delay=common.DelayMgr,
+                   device_manager=ObjS("DeviceManager", collections=Init(lambda I, n: I.new_dict(()))))
     C.cls("LogMixin", fields={})
     C.cls("Mode", file=MODE, bases=["LogMixin"], fields=dict(
         config=Rec(mode=Rec(game_mode=Bool, use_wait_queue=Bool, priority=Int, stop_priority=Int,
@@ -248,7 +249,91 @@ def build():
     C.ext("Mode.mode_start", model=hook("mode_start"), trusted_reason=U)
     C.ext("Mode.mode_stop", model=hook("mode_stop", True), trusted_reason=U + "; first step of the clean-up callback")
     C.ext("Mode._add_mode_devices", model=hook("_add_mode_devices"), trusted_reason=U)
-    C.ext("Mode._setup_device_control_events", model=hook("_setup_device_control_events"), trusted_reason=U)
+    if not control_events:
+        C.ext("Mode._setup_device_control_events", model=hook("_setup_device_control_events"),
+              trusted_reason="registers the control events of the mode's devices through add_mode_event_handler "
+                             "(verified separately: contract set C07b)")
+    # ---- control events of mode devices (set C07b)
+    DM = "mpf/core/device_manager.py"
+    C.cls("MpfController", fields={})
+    C.cls("DeviceManager", file=DM, bases=["MpfController"],
+          fields=dict(collections=Init(lambda I, n: I.new_dict(())), machine=ObjS("MachineI", delay=common.DelayMgr)))
+    C.cls("ControlledDevice", fields=dict(class_label=Str))
+
+    def control_events_model(I, env, a, k):
+        """(event, method, delay, device) for every control event of the devices in the config: bounded list"""
+        n = I.ctx.fork(NB + 1)
+        out = []
+        for i in range(n):
+            d = z3.Int(I.fresh_name("ce_delay%d" % i))
+            I.ctx.assume(d >= 0)
+            out.append(VTuple([VStr(z3.String(I.fresh_name("ce_event%d" % i))),
+                               VOpaque("Fn", z3.Const(I.fresh_name("ce_method%d" % i), usort("Fn"))), VInt(d),
+                               I.fresh(ObjS("ControlledDevice"), I.fresh_name("ce_device%d" % i))]))
+        I.__dict__["c07_control_events"] = out
+        return I.new_list(out, I.fresh_name("control_events"))
+    C.ext("DeviceManager.get_device_control_events", model=control_events_model,
+          trusted_reason="DeviceManager.get_device_control_events: the (event, method, delay, device) tuples of the "
+                         "config (generator; here a list of at most %d)" % NB)
+
+    def control_events_registered(I):
+        """one mode handler per control event; an undelayed one calls the device method directly, a delayed one goes
+        through a handler that is KNOWN (by its own contract) to put the delay into this mode's delay manager"""
+        this = I.frames[0].env["self"].ref
+        want = I.__dict__.get("c07_control_events", [])
+        adds = events_named(I, "add_handler")
+        if len(adds) != len(want):
+            return VBool(False)
+        own_dm = I.force(I.read_field(this, "delay"))
+        conj = []
+        for e, w in zip(adds, want):
+            ev, method, delay, dev = w.items
+            h = I.force(e.args["handler"])
+            kw = e.args["kwargs"]
+            m = I.force(e.args["mode"])
+            if not (m.tag == "obj" and m.ref is this):
+                return VBool(False)
+            conj.append(I.eq(e.args["event"], ev))
+            direct = I.eq(e.args["handler"], method) if h.tag == "opaque" else z3.BoolVal(False)
+            delayed = z3.BoolVal(False)
+            if h.tag == "fn" and h.kind == "bound" and h.name == "_control_event_handler" and "callback" in kw and \
+                    "ms_delay" in kw:
+                owner_ok = False
+                if h.obj is this:
+                    owner_ok = True          # Mode._control_event_handler: clause L5
+                elif getattr(h.obj, "cls", None) == "DeviceManager" and "delay_mgr" in kw:
+                    dmv = I.force(kw["delay_mgr"])
+                    owner_ok = dmv.tag == "obj" and dmv.ref is own_dm.ref      # DeviceManager._control_event_handler: D1
+                if owner_ok:
+                    delayed = z3.And(I.eq(kw["callback"], method), I.eq(kw["ms_delay"], delay))
+            nz = I.force(delay).t != 0
+            conj.append(z3.If(nz, delayed, direct))
+        return VBool(z3.And(*conj) if conj else z3.BoolVal(True))
+    C.helpers["control_events_registered"] = control_events_registered
+    if control_events:
+        C.fn("Mode._setup_device_control_events",
+             loops_by_text={"get_device_control_events": LoopSpec(invariant=[], unroll=True),
+                            "device_manager.collections": LoopSpec(invariant=[], unroll=True),
+                            "device_list": LoopSpec(invariant=[], unroll=True)},
+             ensures=[("L6: every control event of the mode's devices is registered as a MODE handler (removed when the "
+                       "mode stops); a delayed one through a handler whose delay lives in THIS mode's delay manager "
+                       "(cleared when the mode stops) - never in the machine-wide one",
+                       "control_events_registered()")],
+             modifies=["self.event_handlers"], raises={}, inline_calls=True,
+             bounded="BOUNDED: at most %d control events; the device collections of the mode config are empty (the "
+                     "per-device add_control_events_in_mode hook is not under contract)" % NB)
+        C.fn("DeviceManager._control_event_handler",
+             params=dict(callback=Fn, ms_delay=Int, delay_mgr=common.DelayMgr, kwargs=Opaque("Kwargs")),
+             ensures=[("D1: the delayed control event is a delay of the delay manager it was registered with",
+                       "delay_added_to(delay_mgr, ms_delay, callback)")],
+             modifies=["delay_mgr.pending.**"], raises={})
+
+    def delay_added_to(I, dmv, ms, cb):
+        evs = events_named(I, "delay.add")
+        if len(evs) != 1 or evs[0].args["dm"] is not I.force(dmv).ref:
+            return VBool(False)
+        return VBool(z3.And(I.eq(evs[0].args["ms"], ms), I.eq(evs[0].args["callback"], cb)))
+    C.helpers["delay_added_to"] = delay_added_to
 
     def on_cb(I, fn, args, kwargs):
         return NONE
@@ -378,7 +463,8 @@ def build():
     C.trace_helpers = {"posts_are", "n_posts", "post_callback_is", "all_event_handlers_removed",
                        "all_switch_handlers_removed", "all_devices_removed", "stop_methods_ran", "stop_callbacks_ran",
                        "n_callbacks", "n_hook", "n_set_state", "set_state_is", "n_added_handlers",
-                       "stop_handlers_registered", "delays_cleared", "handler_added"}
+                       "stop_handlers_registered", "delays_cleared", "handler_added", "control_events_registered",
+                       "delay_added_to"}
 
     # ---- active setter, handler registration
     C.fn("Mode.active", is_property=True, inline=True, no_inv=True)
@@ -456,7 +542,7 @@ def build():
              ("M1: a start request for a mode that is active, already starting, or a game mode without a game is "
               "ignored: nothing is posted or registered",
               "implies(not " + CAN_START + ", n_posts() == 0 and n_added_handlers() == 0 and "
-              "self._starting == old(self._starting))"),
+              "self._starting == old(self._starting) and self.priority == old(self.priority))"),
              ("M2: an accepted start moves to `starting` and posts will_start, then the starting queue event whose "
               "completion is _started",
               "implies(" + CAN_START + ", self._starting and not self._active and "
@@ -587,3 +673,18 @@ def build():
     C.assume("'every accepted start eventually becomes active / every stop completes' (liveness through the queue "
              "events) is not decided; the per-transition contracts give the safety part")
     return C
+
+
+def build_extra():
+    c07b = build(control_events=True)
+    c07b.pid = "C07b"
+    c07b.replay_pid = "C07"
+    c07b.only_verify = ["Mode._setup_device_control_events", "DeviceManager._control_event_handler"]
+    # 'every ... delay, timer ... it registered is gone': a mode timer is stopped and its pending delays removed when
+    # its mode stops (C13's contracts on Timer, restricted)
+    from . import C13
+    c13 = C13.build()
+    c13.pid = "C07c"
+    c13.replay_pid = "C13"
+    c13.only_verify = ["Timer.device_removed_from_mode", "Timer.stop"]
+    return [c07b, c13]
